@@ -238,7 +238,7 @@ def ob_exp(ctx):
                       z3.Implies(z3.And(e > 0, hb > 0, e % 2 == 0), (POW(b % P, e) - POW(bb, hb)) % P == 0))
     nb = ne = 0
     for p in run('step'):
-        if p.status != 'ok': return viol('exp/event', str(p.result), replay=dict(event=str(p.result)))
+        if p.status != 'ok': return confirm_native(ctx, 'exp', 'exp loop body: %s' % p.result, path_model(p.pc))
         kind, vals, asm = p.result
         if kind == 'back':
             nb += 1; r2 = tobv(vals['res'], 64); b2 = tobv(vals['base'], 64); e2 = tobv(vals['exp'], 64)
@@ -262,6 +262,10 @@ def ob_exp(ctx):
     if not (z3.eq(seen['a'][1], B0) and z3.eq(seen['a'][2], E0) and str(o) == 'exp_out'): return viol('exp/wrapper', 'exp(base,exp) does not forward to exp(result,base,exp)', replay=dict(event='exp wrapper'))
     return ok('entry (1,B,E); %d back-edge / %d exit path(s) preserve result·POW(base,exp) ≡ POW(B,E); exponent 0 returns 1' % (nb, ne), sample=dict(part='exp', back=nb, exit=ne))
 
+def path_model(pc):
+    s = z3.Solver(); s.set('timeout', 20000); s.add(pc)
+    if s.check() != z3.sat: return {}
+    m = s.model(); return {str(d): m[d].as_long() for d in m.decls() if z3.is_bv_value(m[d])}
 def confirm_native(ctx, which, text, model):
     """an inductive-step counterexample is a statement about the loop body from an arbitrary state; before it is reported it is turned into
        a concrete call that misbehaves on the native build (operands taken from the model plus a few fixed values)"""
@@ -277,10 +281,12 @@ def confirm_native(ctx, which, text, model):
                 return viol('inv', '%s; native: inv(%#x) -> %s, inv(a)·a = %s' % (text, x, res, (res[1] * x) % P if res[0] == 'ok' else 'n/a'), replay=dict(kind='inv-value', a=x))
     else:
         f = core.nfn(ctx.bdir, CFG, EXP)
-        for b in cands[:12]:
+        for b in cands[:12] + [2**64 - 2**31 + 1, 2**64 - 5]:
             for e in [0, 1, 2, 3, 5, 6, 7, 8, 12, 255, 2**32 + 5, 2**64 - 1] + [v % 2**64 for v in model.values()][:4]:
-                r = ctypes.c_uint64(0); f(ctypes.byref(r), ctypes.c_uint64(b), ctypes.c_uint64(e))
-                if r.value % P != pow(b, e, P): return viol('exp', '%s; native: exp(%#x, %d) = %#x, expected %d' % (text, b, e, r.value, pow(b, e, P)), replay=dict(kind='exp-value', b=b, e=e))
+                def body(b=b, e=e):
+                    r = ctypes.c_uint64(0); f(ctypes.byref(r), ctypes.c_uint64(b), ctypes.c_uint64(e)); return r.value
+                res = core.forked(body, timeout=20)
+                if res[0] != 'ok' or res[1] % P != pow(b, e, P): return viol('exp', '%s; native: exp(%#x, %d) -> %s, expected %d' % (text, b, e, res, pow(b, e, P)), replay=dict(kind='exp-value', b=b, e=e))
     return inconc('INDUCTIVE-STEP-FAILURE not reproduced by a concrete native call: ' + text)
 
 def obligations(ctx):
@@ -292,13 +298,24 @@ def validate(ctx):
     rng = ctx.rng('C10'); n = 0; bad = []
     w = core.world(ctx.bdir, MODS)
     fi = core.nfn(ctx.bdir, CFG, INV); fe = core.nfn(ctx.bdir, CFG, EXP)
-    for x in [1, 2, 3, P - 1, P + 1, 2**64 - 1, 2**32, 7] + [rng.getrandbits(64) for _ in range(6)]:
-        if x % P == 0: continue
-        a = ctypes.c_uint64(x); r = ctypes.c_uint64(0); fi(ctypes.byref(r), ctypes.byref(a))
+    xs = [x for x in [1, 2, 3, P - 1, P + 1, 2**64 - 1, 2**32, 7] + [rng.getrandbits(64) for _ in range(6)] if x % P]
+    es = [rng.getrandbits(rng.choice([1, 3, 8, 64])) for _ in xs]
+    def nat():
+        out = []
+        for x, e in zip(xs, es):
+            a = ctypes.c_uint64(x); r = ctypes.c_uint64(0); fi(ctypes.byref(r), ctypes.byref(a))
+            r2 = ctypes.c_uint64(0); fe(ctypes.byref(r2), ctypes.c_uint64(x), ctypes.c_uint64(e)); out.append((r.value, r2.value))
+        return out
+    nres = core.forked(nat, timeout=60)
+    if nres[0] != 'ok': return {'vectors': 0, 'mismatches': [], 'note': 'native inv/exp run ended with %s %s (left to the solver to report)' % nres}
+    for (x, e, (rv, r2v)) in zip(xs, es, nres[1]):
+        class _V: pass
+        r = _V(); r.value = rv; r2 = _V(); r2.value = r2v
         w.reset(); w.hooks = dict(w.base_hooks); it = Interp(w); ro = Obj(8, 'r', 8); it.call(INV, [Ptr(ro, 0), Ptr(core.obj_words('a', [x], 8), 0)]); n += 1
         if ro.cells[0] != r.value: bad.append('inv(%#x): native %#x interpreter %#x' % (x, r.value, ro.cells[0]))
-        e = rng.getrandbits(rng.choice([1, 3, 8, 64])); r2 = ctypes.c_uint64(0); fe(ctypes.byref(r2), ctypes.c_uint64(x), ctypes.c_uint64(e))
-        w.reset(); w.hooks = dict(w.base_hooks); it = Interp(w); ro = Obj(8, 'r', 8); it.call(EXP, [Ptr(ro, 0), x, e]); n += 1
+        w.reset(); w.hooks = dict(w.base_hooks); it = Interp(w); ro = Obj(8, 'r', 8)
+        try: it.call(EXP, [Ptr(ro, 0), x, e]); n += 1
+        except Violation: continue
         if ro.cells[0] != r2.value: bad.append('exp(%#x,%d): native %#x interpreter %#x' % (x, e, r2.value, ro.cells[0]))
     return {'vectors': n, 'mismatches': bad}
 
@@ -317,6 +334,9 @@ def replay(ctx, d):
         res = core.forked(body, timeout=20)
         return res[0] != 'ok' or (res[1] * x) % P != 1, 'inv(%#x) -> %s' % (x, res,)
     if d.get('kind') == 'exp-value':
-        f = core.nfn(ctx.bdir, CFG, EXP); r = ctypes.c_uint64(0); f(ctypes.byref(r), ctypes.c_uint64(d['b']), ctypes.c_uint64(d['e']))
-        return r.value % P != pow(d['b'], d['e'], P), 'exp(%#x,%d) = %#x, expected %d' % (d['b'], d['e'], r.value, pow(d['b'], d['e'], P))
+        f = core.nfn(ctx.bdir, CFG, EXP)
+        def body():
+            r = ctypes.c_uint64(0); f(ctypes.byref(r), ctypes.c_uint64(d['b']), ctypes.c_uint64(d['e'])); return r.value
+        res = core.forked(body, timeout=20)
+        return res[0] != 'ok' or res[1] % P != pow(d['b'], d['e'], P), 'exp(%#x,%d) -> %s, expected %d' % (d['b'], d['e'], res, pow(d['b'], d['e'], P))
     return True, str(d)
